@@ -15,6 +15,7 @@ MUTANTS = [
     ("parts-reversed", V, "            _list_parts = [\n                next(iter(p.keys())) if isinstance(p, dict) else p for p in list_parts\n            ]", "            _list_parts = [\n                next(iter(p.keys())) if isinstance(p, dict) else p for p in reversed(list_parts)\n            ]", "C15.3"),
     ("skip-subdecay-dups", V, "                        if not isinstance(_p, str):\n                            _k = next(iter(_p.keys()))", "                        if not isinstance(_p, str) and i < 3:\n                            _k = next(iter(_p.keys()))", "C15.4"),
 ]
+MUTANTS.append(("edge-dropped-in-subchain-branch", V, "                    if link_pos is None:\n                        self.graph.edge(top_node, _ref_1, label=str(_bf_1))\n                    else:", "                    if link_pos is None:\n                        pass\n                    else:", "C15.1"))
 BENIGN = [
     ("loop-over-lines", V, "            n_decaymodes = len(subchain)\n            for idm in range(n_decaymodes):", "            n_decaymodes = len(subchain)\n            for idm in range(len(subchain)):"),
     ("bf-via-local", V, "                    _bf = subchain[idm][\"bf\"]", "                    _mode = subchain[idm]\n                    _bf = _mode[\"bf\"]"),
